@@ -60,9 +60,9 @@ Definition panic_table : list (string * string) := [
    "type fixed by the caller: parameter key table, or the transaction type checked earlier in the ante chain");
   ("app/ante/settlement_fee_checker.go|newSettlementFeeChecker|assert|_.(sdk.FeeTx)",
    "type fixed by the caller: parameter key table, or the transaction type checked earlier in the ante chain");
-  ("app/ante/settlement_fee_checker.go|newSettlementFeeChecker|call:NewCoins|sdk.NewCoins",
+  ("app/ante/settlement_fee_checker.go|newSettlementFeeChecker|call:NewCoins|NewCoins",
    "gas price denominations are validated by the settlement parameter set (C16); requiredFees is a truncated non-negative Dec");
-  ("app/ante/settlement_fee_checker.go|newSettlementFeeChecker|call:NewCoin|sdk.NewCoin",
+  ("app/ante/settlement_fee_checker.go|newSettlementFeeChecker|call:NewCoin|NewCoin",
    "gas price denominations are validated by the settlement parameter set (C16); requiredFees is a truncated non-negative Dec");
   ("types/nft.go|ParseNftId|index|_[0]",
    "MODELLED parse_nft_id_go: guarded by len(data) != 3 (C06_entry_parser_total)");
@@ -70,75 +70,75 @@ Definition panic_table : list (string * string) := [
    "MODELLED parse_nft_id_go: guarded by len(data) != 3 (C06_entry_parser_total)");
   ("types/nft.go|ParseNftId|index|_[2]",
    "MODELLED parse_nft_id_go: guarded by len(data) != 3 (C06_entry_parser_total)");
-  ("x/oracle/genesis.go|InitGenesis|panic|panic(fmt.Errorf('failed to set feeder delegation (%s)', _))",
+  ("x/oracle/genesis.go|InitGenesis|panic|panic",
    "start-up / genesis / export path, outside block processing (genesis round trip is C17)");
-  ("x/oracle/genesis.go|InitGenesis|panic|panic(fmt.Errorf('failed to set params (%s)', _))",
+  ("x/oracle/genesis.go|InitGenesis|panic|panic",
    "start-up / genesis / export path, outside block processing (genesis round trip is C17)");
-  ("x/oracle/keeper/feeder.go|Keeper.GetAggregatePrevotes|call:MustUnmarshal|_.cdc.MustUnmarshal",
+  ("x/oracle/keeper/feeder.go|Keeper.GetAggregatePrevotes|call:MustUnmarshal|MustUnmarshal",
    "codec round trip of a value this module wrote itself (protobuf codec trusted)");
-  ("x/oracle/keeper/feeder.go|Keeper.GetAggregatePrevote|call:MustUnmarshal|_.cdc.MustUnmarshal",
+  ("x/oracle/keeper/feeder.go|Keeper.GetAggregatePrevote|call:MustUnmarshal|MustUnmarshal",
    "codec round trip of a value this module wrote itself (protobuf codec trusted)");
-  ("x/oracle/keeper/feeder.go|Keeper.GetAggregateVotes|call:MustUnmarshal|_.cdc.MustUnmarshal",
+  ("x/oracle/keeper/feeder.go|Keeper.GetAggregateVotes|call:MustUnmarshal|MustUnmarshal",
    "codec round trip of a value this module wrote itself (protobuf codec trusted)");
-  ("x/oracle/keeper/feeder.go|Keeper.GetAggregateVote|call:MustUnmarshal|_.cdc.MustUnmarshal",
+  ("x/oracle/keeper/feeder.go|Keeper.GetAggregateVote|call:MustUnmarshal|MustUnmarshal",
    "codec round trip of a value this module wrote itself (protobuf codec trusted)");
   ("x/oracle/keeper/feeder.go|Keeper.GetFeederDelegations|slice|_.Key()[1:]",
    "store keys written by this module: 1 prefix byte / two big-endian uint64 (Base/Keys.v)");
-  ("x/oracle/keeper/feeder.go|Keeper.GetRewardPool|panic|panic(fmt.Sprintf('%s module account has not been set', types.ModuleName))",
+  ("x/oracle/keeper/feeder.go|Keeper.GetRewardPool|panic|panic",
    "the oracle module account is created at start-up (NewKeeper panics otherwise)");
-  ("x/oracle/keeper/feeder.go|Keeper.IterateAggregatePrevotes|call:MustUnmarshal|_.cdc.MustUnmarshal",
+  ("x/oracle/keeper/feeder.go|Keeper.IterateAggregatePrevotes|call:MustUnmarshal|MustUnmarshal",
    "codec round trip of a value this module wrote itself (protobuf codec trusted)");
   ("x/oracle/keeper/feeder.go|Keeper.IterateAggregatePrevotes|slice|_.Key()[1:]",
    "store keys written by this module: 1 prefix byte / two big-endian uint64 (Base/Keys.v)");
-  ("x/oracle/keeper/feeder.go|Keeper.IterateAggregateVotes|call:MustUnmarshal|_.cdc.MustUnmarshal",
+  ("x/oracle/keeper/feeder.go|Keeper.IterateAggregateVotes|call:MustUnmarshal|MustUnmarshal",
    "codec round trip of a value this module wrote itself (protobuf codec trusted)");
   ("x/oracle/keeper/feeder.go|Keeper.IterateAggregateVotes|slice|_.Key()[1:]",
    "store keys written by this module: 1 prefix byte / two big-endian uint64 (Base/Keys.v)");
   ("x/oracle/keeper/feeder.go|Keeper.IterateMissCount|slice|_.Key()[1:]",
    "store keys written by this module: 1 prefix byte / two big-endian uint64 (Base/Keys.v)");
-  ("x/oracle/keeper/feeder.go|Keeper.SetAggregatePrevote|call:MustMarshal|_.cdc.MustMarshal",
+  ("x/oracle/keeper/feeder.go|Keeper.SetAggregatePrevote|call:MustMarshal|MustMarshal",
    "codec round trip of a value this module wrote itself (protobuf codec trusted)");
-  ("x/oracle/keeper/feeder.go|Keeper.SetAggregateVote|call:MustMarshal|_.cdc.MustMarshal",
+  ("x/oracle/keeper/feeder.go|Keeper.SetAggregateVote|call:MustMarshal|MustMarshal",
    "codec round trip of a value this module wrote itself (protobuf codec trusted)");
-  ("x/oracle/keeper/feeder.go|Keeper.SlashValidatorsAndResetMissCount|panic|panic(fmt.Errorf('failed to get consensus address from validator: %w', _))",
+  ("x/oracle/keeper/feeder.go|Keeper.SlashValidatorsAndResetMissCount|panic|panic",
    "miss-counter keys are written from validator addresses of the claim map; GetConsAddr of a stored validator");
-  ("x/oracle/keeper/feeder.go|Keeper.SlashValidatorsAndResetMissCount|panic|panic(fmt.Errorf('failed to parse validator address from store: %w', _))",
+  ("x/oracle/keeper/feeder.go|Keeper.SlashValidatorsAndResetMissCount|panic|panic",
    "miss-counter keys are written from validator addresses of the claim map; GetConsAddr of a stored validator");
-  ("x/oracle/keeper/keeper.go|Keeper.GetCurrentRoundInfo|call:MustUnmarshal|_.cdc.MustUnmarshal",
+  ("x/oracle/keeper/keeper.go|Keeper.GetCurrentRoundInfo|call:MustUnmarshal|MustUnmarshal",
    "codec round trip of a value this module wrote itself (protobuf codec trusted)");
-  ("x/oracle/keeper/keeper.go|Keeper.SetCurrentRoundInfo|call:MustMarshal|_.cdc.MustMarshal",
+  ("x/oracle/keeper/keeper.go|Keeper.SetCurrentRoundInfo|call:MustMarshal|MustMarshal",
    "codec round trip of a value this module wrote itself (protobuf codec trusted)");
   ("x/oracle/keeper/keeper.go|Keeper.ownershipOracleData|index|_[_]",
    "sources has len(nfts) elements and i ranges over nfts");
-  ("x/oracle/keeper/keeper.go|NewKeeper|panic|panic(fmt.Sprintf('%s module account has not been set', types.ModuleName))",
+  ("x/oracle/keeper/keeper.go|NewKeeper|panic|panic",
    "start-up / genesis / export path, outside block processing (genesis round trip is C17)");
-  ("x/oracle/keeper/query.go|Keeper.AggregatePrevotes|call:MustUnmarshal|_.cdc.MustUnmarshal",
+  ("x/oracle/keeper/query.go|Keeper.AggregatePrevotes|call:MustUnmarshal|MustUnmarshal",
    "codec round trip of a value this module wrote itself (protobuf codec trusted)");
-  ("x/oracle/module.go|AppModule.ExportGenesis|call:MustMarshalJSON|_.MustMarshalJSON",
+  ("x/oracle/module.go|AppModule.ExportGenesis|call:MustMarshalJSON|MustMarshalJSON",
    "start-up / genesis / export path, outside block processing (genesis round trip is C17)");
-  ("x/oracle/module.go|AppModule.InitGenesis|call:MustUnmarshalJSON|_.MustUnmarshalJSON",
+  ("x/oracle/module.go|AppModule.InitGenesis|call:MustUnmarshalJSON|MustUnmarshalJSON",
    "start-up / genesis / export path, outside block processing (genesis round trip is C17)");
-  ("x/oracle/module.go|AppModuleBasic.DefaultGenesis|call:MustMarshalJSON|_.MustMarshalJSON",
+  ("x/oracle/module.go|AppModuleBasic.DefaultGenesis|call:MustMarshalJSON|MustMarshalJSON",
    "start-up / genesis / export path, outside block processing (genesis round trip is C17)");
-  ("x/oracle/module.go|AppModuleBasic.RegisterGRPCGatewayRoutes|panic|panic(_)",
+  ("x/oracle/module.go|AppModuleBasic.RegisterGRPCGatewayRoutes|panic|panic",
    "start-up / genesis / export path, outside block processing (genesis round trip is C17)");
-  ("x/oracle/types/messages.go|*MsgFeederDelegationConsent.GetSignBytes|call:MustMarshalJSON|_.MustMarshalJSON",
+  ("x/oracle/types/messages.go|*MsgFeederDelegationConsent.GetSignBytes|call:MustMarshalJSON|MustMarshalJSON",
    "amino JSON of a decoded message; legacy sign bytes, not used in block processing");
-  ("x/oracle/types/messages.go|*MsgFeederDelegationConsent.GetSignBytes|call:MustSortJSON|sdk.MustSortJSON",
+  ("x/oracle/types/messages.go|*MsgFeederDelegationConsent.GetSignBytes|call:MustSortJSON|MustSortJSON",
    "amino JSON of a decoded message; legacy sign bytes, not used in block processing");
-  ("x/oracle/types/messages.go|*MsgFeederDelegationConsent.GetSigners|panic|panic(_)",
+  ("x/oracle/types/messages.go|*MsgFeederDelegationConsent.GetSigners|panic|panic",
    "the signer address was checked by ValidateBasic, which the ante handler runs before GetSigners is used");
-  ("x/oracle/types/messages.go|*MsgPrevote.GetSignBytes|call:MustMarshalJSON|_.MustMarshalJSON",
+  ("x/oracle/types/messages.go|*MsgPrevote.GetSignBytes|call:MustMarshalJSON|MustMarshalJSON",
    "amino JSON of a decoded message; legacy sign bytes, not used in block processing");
-  ("x/oracle/types/messages.go|*MsgPrevote.GetSignBytes|call:MustSortJSON|sdk.MustSortJSON",
+  ("x/oracle/types/messages.go|*MsgPrevote.GetSignBytes|call:MustSortJSON|MustSortJSON",
    "amino JSON of a decoded message; legacy sign bytes, not used in block processing");
-  ("x/oracle/types/messages.go|*MsgPrevote.GetSigners|panic|panic(_)",
+  ("x/oracle/types/messages.go|*MsgPrevote.GetSigners|panic|panic",
    "the signer address was checked by ValidateBasic, which the ante handler runs before GetSigners is used");
-  ("x/oracle/types/messages.go|*MsgVote.GetSignBytes|call:MustMarshalJSON|_.MustMarshalJSON",
+  ("x/oracle/types/messages.go|*MsgVote.GetSignBytes|call:MustMarshalJSON|MustMarshalJSON",
    "amino JSON of a decoded message; legacy sign bytes, not used in block processing");
-  ("x/oracle/types/messages.go|*MsgVote.GetSignBytes|call:MustSortJSON|sdk.MustSortJSON",
+  ("x/oracle/types/messages.go|*MsgVote.GetSignBytes|call:MustSortJSON|MustSortJSON",
    "amino JSON of a decoded message; legacy sign bytes, not used in block processing");
-  ("x/oracle/types/messages.go|*MsgVote.GetSigners|panic|panic(_)",
+  ("x/oracle/types/messages.go|*MsgVote.GetSigners|panic|panic",
    "the signer address was checked by ValidateBasic, which the ante handler runs before GetSigners is used");
   ("x/oracle/types/params.go|CalculateRoundStartHeight|div|%",
    "MODELLED round_start_u / vote_period_i (None = divide by zero); excluded by Params.Validate 1 <= p <= MaxVotePeriod (C06_round_arithmetic_total)");
@@ -172,125 +172,125 @@ Definition panic_table : list (string * string) := [
    "generic type instantiation, not an index expression");
   ("x/oracle/voteprocessor/voteprocessor.go|*VoteProcessor[Source, Data].groupVotes|index|_[_]",
    "generic type instantiation, not an index expression");
-  ("x/settlement/genesis.go|InitGenesis|panic|panic(fmt.Errorf('unable to create utxr during init genesis: %w', _))",
+  ("x/settlement/genesis.go|InitGenesis|panic|panic",
    "start-up / genesis / export path, outside block processing (genesis round trip is C17)");
-  ("x/settlement/keeper/grpc_query.go|SettlementKeeper.Tenants|call:MustUnmarshal|_.cdc.MustUnmarshal",
+  ("x/settlement/keeper/grpc_query.go|SettlementKeeper.Tenants|call:MustUnmarshal|MustUnmarshal",
    "codec round trip of a value this module wrote itself (protobuf codec trusted)");
-  ("x/settlement/keeper/grpc_query.go|SettlementKeeper.UTXRs|call:MustUnmarshal|_.cdc.MustUnmarshal",
+  ("x/settlement/keeper/grpc_query.go|SettlementKeeper.UTXRs|call:MustUnmarshal|MustUnmarshal",
    "codec round trip of a value this module wrote itself (protobuf codec trusted)");
-  ("x/settlement/keeper/grpc_query.go|SettlementKeeper.buildTenantWithTreasury|call:NewCoin|sdk.NewCoin",
+  ("x/settlement/keeper/grpc_query.go|SettlementKeeper.buildTenantWithTreasury|call:NewCoin|NewCoin",
    "query path; tenant denominations are validated at creation since the repair of F08");
-  ("x/settlement/keeper/msg_server.go|msgServer.DepositToTreasury|call:NewCoins|sdk.NewCoins",
+  ("x/settlement/keeper/msg_server.go|msgServer.DepositToTreasury|call:NewCoins|NewCoins",
    "msg.Amount was validated by ValidateBasic (valid_coin) since the repair of F08");
   ("x/settlement/keeper/msg_server.go|msgServer.RemoveTenantAdmin|slice|_[:_]",
    "i is the index of the loop over tenant.Admins");
   ("x/settlement/keeper/msg_server.go|msgServer.RemoveTenantAdmin|slice|_[_+ 1:]",
    "i is the index of the loop over tenant.Admins");
-  ("x/settlement/keeper/keeper.go|SettlementKeeper.callContract|call:CallEVM|_.evmk.CallEVM",
+  ("x/settlement/keeper/keeper.go|SettlementKeeper.callContract|call:CallEVM|CallEVM",
    "the one call to a user-chosen address: inside the recover of callContract, a panic of the EVM becomes an error (F25)");
-  ("x/settlement/keeper/tenant.go|SettlementKeeper.deployTokenContract|call:CallEVMWithData|_.evmk.CallEVMWithData",
+  ("x/settlement/keeper/tenant.go|SettlementKeeper.deployTokenContract|call:CallEVMWithData|CallEVMWithData",
    "contract creation (callee nil): the new address is derived from the treasury account and its nonce, no user-chosen callee");
-  ("x/settlement/keeper/keeper.go|SettlementKeeper.callContract|panic|panic(_)",
+  ("x/settlement/keeper/keeper.go|SettlementKeeper.callContract|panic|panic",
    "inside a recover: re-raises only the out-of-gas / gas-overflow panics of the transaction's gas meter, which baseapp turns into an out-of-gas result; begin- and end-block run on an infinite gas meter; every other panic of the EVM call becomes an error (F25)");
-  ("x/settlement/keeper/settle.go|SettlementKeeper.Settle|panic|panic(fmt.Errorf('failed to settle: %w', _))",
+  ("x/settlement/keeper/settle.go|SettlementKeeper.Settle|panic|panic",
    "settleUTXRs returns an error only if deleteUTXR does not find the record it has just read from the iterator: unreachable");
-  ("x/settlement/keeper/settle.go|SettlementKeeper.settleUTXRs|call:MustUnmarshal|_.cdc.MustUnmarshal",
+  ("x/settlement/keeper/settle.go|SettlementKeeper.settleUTXRs|call:MustUnmarshal|MustUnmarshal",
    "codec round trip of a value this module wrote itself (protobuf codec trusted)");
-  ("x/settlement/keeper/settle.go|SettlementKeeper.tryPayout|call:NewCoins|sdk.NewCoins",
+  ("x/settlement/keeper/settle.go|SettlementKeeper.tryPayout|call:NewCoins|NewCoins",
    "MODELLED payout_panics: valid denomination and 0 <= share < 2^256 for every stored record (C06_payout_cannot_panic, C06_records_stay_safe)");
-  ("x/settlement/keeper/tenant.go|SettlementKeeper.GetAllTenants|call:MustUnmarshal|_.cdc.MustUnmarshal",
+  ("x/settlement/keeper/tenant.go|SettlementKeeper.GetAllTenants|call:MustUnmarshal|MustUnmarshal",
    "codec round trip of a value this module wrote itself (protobuf codec trusted)");
-  ("x/settlement/keeper/tenant.go|SettlementKeeper.GetTenant|call:MustUnmarshal|_.cdc.MustUnmarshal",
+  ("x/settlement/keeper/tenant.go|SettlementKeeper.GetTenant|call:MustUnmarshal|MustUnmarshal",
    "codec round trip of a value this module wrote itself (protobuf codec trusted)");
-  ("x/settlement/keeper/tenant.go|SettlementKeeper.SetTenant|call:MustMarshal|_.cdc.MustMarshal",
+  ("x/settlement/keeper/tenant.go|SettlementKeeper.SetTenant|call:MustMarshal|MustMarshal",
    "codec round trip of a value this module wrote itself (protobuf codec trusted)");
   ("x/settlement/keeper/tenant.go|SettlementKeeper.deployTokenContract|slice|_[:len(contracts.SBTContract.Bin)]",
    "data was built as Bin ++ ctor two lines above");
   ("x/settlement/keeper/tenant.go|SettlementKeeper.deployTokenContract|slice|_[len(contracts.SBTContract.Bin):]",
    "data was built as Bin ++ ctor two lines above");
-  ("x/settlement/keeper/utxr.go|SettlementKeeper.CreateUTXR|call:MustMarshal|_.cdc.MustMarshal",
+  ("x/settlement/keeper/utxr.go|SettlementKeeper.CreateUTXR|call:MustMarshal|MustMarshal",
    "codec round trip of a value this module wrote itself (protobuf codec trusted)");
-  ("x/settlement/keeper/utxr.go|SettlementKeeper.GetAllUTXRWithTenantAndID|call:MustUnmarshal|_.cdc.MustUnmarshal",
+  ("x/settlement/keeper/utxr.go|SettlementKeeper.GetAllUTXRWithTenantAndID|call:MustUnmarshal|MustUnmarshal",
    "codec round trip of a value this module wrote itself (protobuf codec trusted)");
   ("x/settlement/keeper/utxr.go|SettlementKeeper.GetAllUTXRWithTenantAndID|slice|_[0:8]",
    "store keys written by this module: 1 prefix byte / two big-endian uint64 (Base/Keys.v)");
   ("x/settlement/keeper/utxr.go|SettlementKeeper.GetAllUTXRWithTenantAndID|slice|_[8:]",
    "store keys written by this module: 1 prefix byte / two big-endian uint64 (Base/Keys.v)");
-  ("x/settlement/keeper/utxr.go|SettlementKeeper.GetAllUniqueNftToVerify|call:MustUnmarshal|_.cdc.MustUnmarshal",
+  ("x/settlement/keeper/utxr.go|SettlementKeeper.GetAllUniqueNftToVerify|call:MustUnmarshal|MustUnmarshal",
    "codec round trip of a value this module wrote itself (protobuf codec trusted)");
-  ("x/settlement/keeper/utxr.go|SettlementKeeper.GetUTXRByRequestId|call:MustUnmarshal|_.cdc.MustUnmarshal",
+  ("x/settlement/keeper/utxr.go|SettlementKeeper.GetUTXRByRequestId|call:MustUnmarshal|MustUnmarshal",
    "codec round trip of a value this module wrote itself (protobuf codec trusted)");
-  ("x/settlement/keeper/utxr.go|SettlementKeeper.ImportUTXR|call:MustMarshal|_.cdc.MustMarshal",
+  ("x/settlement/keeper/utxr.go|SettlementKeeper.ImportUTXR|call:MustMarshal|MustMarshal",
    "codec round trip of a value this module wrote itself (protobuf codec trusted)");
-  ("x/settlement/keeper/utxr.go|SettlementKeeper.SetRecipients|call:MustMarshal|_.cdc.MustMarshal",
+  ("x/settlement/keeper/utxr.go|SettlementKeeper.SetRecipients|call:MustMarshal|MustMarshal",
    "codec round trip of a value this module wrote itself (protobuf codec trusted)");
-  ("x/settlement/keeper/utxr.go|SettlementKeeper.SetRecipients|call:MustUnmarshal|_.cdc.MustUnmarshal",
+  ("x/settlement/keeper/utxr.go|SettlementKeeper.SetRecipients|call:MustUnmarshal|MustUnmarshal",
    "codec round trip of a value this module wrote itself (protobuf codec trusted)");
   ("x/settlement/keeper/utxr.go|SettlementKeeper.SetRecipients|slice|_[0:8]",
    "store keys written by this module: 1 prefix byte / two big-endian uint64 (Base/Keys.v)");
   ("x/settlement/keeper/utxr.go|SettlementKeeper.SetRecipients|slice|_[8:]",
    "store keys written by this module: 1 prefix byte / two big-endian uint64 (Base/Keys.v)");
-  ("x/settlement/keeper/utxr.go|SettlementKeeper.deleteUTXR|call:MustUnmarshal|_.cdc.MustUnmarshal",
+  ("x/settlement/keeper/utxr.go|SettlementKeeper.deleteUTXR|call:MustUnmarshal|MustUnmarshal",
    "codec round trip of a value this module wrote itself (protobuf codec trusted)");
-  ("x/settlement/module.go|AppModule.ExportGenesis|call:MustMarshalJSON|_.MustMarshalJSON",
+  ("x/settlement/module.go|AppModule.ExportGenesis|call:MustMarshalJSON|MustMarshalJSON",
    "start-up / genesis / export path, outside block processing (genesis round trip is C17)");
-  ("x/settlement/module.go|AppModule.InitGenesis|call:MustUnmarshalJSON|_.MustUnmarshalJSON",
+  ("x/settlement/module.go|AppModule.InitGenesis|call:MustUnmarshalJSON|MustUnmarshalJSON",
    "start-up / genesis / export path, outside block processing (genesis round trip is C17)");
-  ("x/settlement/module.go|AppModuleBasic.DefaultGenesis|call:MustMarshalJSON|_.MustMarshalJSON",
+  ("x/settlement/module.go|AppModuleBasic.DefaultGenesis|call:MustMarshalJSON|MustMarshalJSON",
    "start-up / genesis / export path, outside block processing (genesis round trip is C17)");
   ("x/settlement/types/genesis.go|GenesisState.Validate|index|_[_]",
    "start-up / genesis / export path, outside block processing (genesis round trip is C17)");
-  ("x/settlement/types/msg.go|*MsgAddTenantAdmin.GetSignBytes|call:MustMarshalJSON|_.MustMarshalJSON",
+  ("x/settlement/types/msg.go|*MsgAddTenantAdmin.GetSignBytes|call:MustMarshalJSON|MustMarshalJSON",
    "amino JSON of a decoded message; legacy sign bytes, not used in block processing");
-  ("x/settlement/types/msg.go|*MsgAddTenantAdmin.GetSignBytes|call:MustSortJSON|sdk.MustSortJSON",
+  ("x/settlement/types/msg.go|*MsgAddTenantAdmin.GetSignBytes|call:MustSortJSON|MustSortJSON",
    "amino JSON of a decoded message; legacy sign bytes, not used in block processing");
-  ("x/settlement/types/msg.go|*MsgAddTenantAdmin.GetSigners|panic|panic(_)",
+  ("x/settlement/types/msg.go|*MsgAddTenantAdmin.GetSigners|panic|panic",
    "the signer address was checked by ValidateBasic, which the ante handler runs before GetSigners is used");
-  ("x/settlement/types/msg.go|*MsgCancel.GetSignBytes|call:MustMarshalJSON|_.MustMarshalJSON",
+  ("x/settlement/types/msg.go|*MsgCancel.GetSignBytes|call:MustMarshalJSON|MustMarshalJSON",
    "amino JSON of a decoded message; legacy sign bytes, not used in block processing");
-  ("x/settlement/types/msg.go|*MsgCancel.GetSignBytes|call:MustSortJSON|sdk.MustSortJSON",
+  ("x/settlement/types/msg.go|*MsgCancel.GetSignBytes|call:MustSortJSON|MustSortJSON",
    "amino JSON of a decoded message; legacy sign bytes, not used in block processing");
-  ("x/settlement/types/msg.go|*MsgCancel.GetSigners|panic|panic(_)",
+  ("x/settlement/types/msg.go|*MsgCancel.GetSigners|panic|panic",
    "the signer address was checked by ValidateBasic, which the ante handler runs before GetSigners is used");
-  ("x/settlement/types/msg.go|*MsgCreateTenant.GetSignBytes|call:MustMarshalJSON|_.MustMarshalJSON",
+  ("x/settlement/types/msg.go|*MsgCreateTenant.GetSignBytes|call:MustMarshalJSON|MustMarshalJSON",
    "amino JSON of a decoded message; legacy sign bytes, not used in block processing");
-  ("x/settlement/types/msg.go|*MsgCreateTenant.GetSignBytes|call:MustSortJSON|sdk.MustSortJSON",
+  ("x/settlement/types/msg.go|*MsgCreateTenant.GetSignBytes|call:MustSortJSON|MustSortJSON",
    "amino JSON of a decoded message; legacy sign bytes, not used in block processing");
-  ("x/settlement/types/msg.go|*MsgCreateTenant.GetSigners|panic|panic(_)",
+  ("x/settlement/types/msg.go|*MsgCreateTenant.GetSigners|panic|panic",
    "the signer address was checked by ValidateBasic, which the ante handler runs before GetSigners is used");
-  ("x/settlement/types/msg.go|*MsgCreateTenantWithMintableContract.GetSignBytes|call:MustMarshalJSON|_.MustMarshalJSON",
+  ("x/settlement/types/msg.go|*MsgCreateTenantWithMintableContract.GetSignBytes|call:MustMarshalJSON|MustMarshalJSON",
    "amino JSON of a decoded message; legacy sign bytes, not used in block processing");
-  ("x/settlement/types/msg.go|*MsgCreateTenantWithMintableContract.GetSignBytes|call:MustSortJSON|sdk.MustSortJSON",
+  ("x/settlement/types/msg.go|*MsgCreateTenantWithMintableContract.GetSignBytes|call:MustSortJSON|MustSortJSON",
    "amino JSON of a decoded message; legacy sign bytes, not used in block processing");
-  ("x/settlement/types/msg.go|*MsgCreateTenantWithMintableContract.GetSigners|panic|panic(_)",
+  ("x/settlement/types/msg.go|*MsgCreateTenantWithMintableContract.GetSigners|panic|panic",
    "the signer address was checked by ValidateBasic, which the ante handler runs before GetSigners is used");
-  ("x/settlement/types/msg.go|*MsgDepositToTreasury.GetSignBytes|call:MustMarshalJSON|_.MustMarshalJSON",
+  ("x/settlement/types/msg.go|*MsgDepositToTreasury.GetSignBytes|call:MustMarshalJSON|MustMarshalJSON",
    "amino JSON of a decoded message; legacy sign bytes, not used in block processing");
-  ("x/settlement/types/msg.go|*MsgDepositToTreasury.GetSignBytes|call:MustSortJSON|sdk.MustSortJSON",
+  ("x/settlement/types/msg.go|*MsgDepositToTreasury.GetSignBytes|call:MustSortJSON|MustSortJSON",
    "amino JSON of a decoded message; legacy sign bytes, not used in block processing");
-  ("x/settlement/types/msg.go|*MsgDepositToTreasury.GetSigners|panic|panic(_)",
+  ("x/settlement/types/msg.go|*MsgDepositToTreasury.GetSigners|panic|panic",
    "the signer address was checked by ValidateBasic, which the ante handler runs before GetSigners is used");
-  ("x/settlement/types/msg.go|*MsgRecord.GetSignBytes|call:MustMarshalJSON|_.MustMarshalJSON",
+  ("x/settlement/types/msg.go|*MsgRecord.GetSignBytes|call:MustMarshalJSON|MustMarshalJSON",
    "amino JSON of a decoded message; legacy sign bytes, not used in block processing");
-  ("x/settlement/types/msg.go|*MsgRecord.GetSignBytes|call:MustSortJSON|sdk.MustSortJSON",
+  ("x/settlement/types/msg.go|*MsgRecord.GetSignBytes|call:MustSortJSON|MustSortJSON",
    "amino JSON of a decoded message; legacy sign bytes, not used in block processing");
-  ("x/settlement/types/msg.go|*MsgRecord.GetSigners|panic|panic(_)",
+  ("x/settlement/types/msg.go|*MsgRecord.GetSigners|panic|panic",
    "the signer address was checked by ValidateBasic, which the ante handler runs before GetSigners is used");
   ("x/settlement/types/msg.go|*MsgRecord.ValidateBasic|slice|_[2:]",
    "guarded by HasPrefix(TokenIdHex, 0x) on the previous line");
-  ("x/settlement/types/msg.go|*MsgRemoveTenantAdmin.GetSignBytes|call:MustMarshalJSON|_.MustMarshalJSON",
+  ("x/settlement/types/msg.go|*MsgRemoveTenantAdmin.GetSignBytes|call:MustMarshalJSON|MustMarshalJSON",
    "amino JSON of a decoded message; legacy sign bytes, not used in block processing");
-  ("x/settlement/types/msg.go|*MsgRemoveTenantAdmin.GetSignBytes|call:MustSortJSON|sdk.MustSortJSON",
+  ("x/settlement/types/msg.go|*MsgRemoveTenantAdmin.GetSignBytes|call:MustSortJSON|MustSortJSON",
    "amino JSON of a decoded message; legacy sign bytes, not used in block processing");
-  ("x/settlement/types/msg.go|*MsgRemoveTenantAdmin.GetSigners|panic|panic(_)",
+  ("x/settlement/types/msg.go|*MsgRemoveTenantAdmin.GetSigners|panic|panic",
    "the signer address was checked by ValidateBasic, which the ante handler runs before GetSigners is used");
-  ("x/settlement/types/msg.go|*MsgUpdateTenantPayoutPeriod.GetSignBytes|call:MustMarshalJSON|_.MustMarshalJSON",
+  ("x/settlement/types/msg.go|*MsgUpdateTenantPayoutPeriod.GetSignBytes|call:MustMarshalJSON|MustMarshalJSON",
    "amino JSON of a decoded message; legacy sign bytes, not used in block processing");
-  ("x/settlement/types/msg.go|*MsgUpdateTenantPayoutPeriod.GetSignBytes|call:MustSortJSON|sdk.MustSortJSON",
+  ("x/settlement/types/msg.go|*MsgUpdateTenantPayoutPeriod.GetSignBytes|call:MustSortJSON|MustSortJSON",
    "amino JSON of a decoded message; legacy sign bytes, not used in block processing");
-  ("x/settlement/types/msg.go|*MsgUpdateTenantPayoutPeriod.GetSigners|panic|panic(_)",
+  ("x/settlement/types/msg.go|*MsgUpdateTenantPayoutPeriod.GetSigners|panic|panic",
    "the signer address was checked by ValidateBasic, which the ante handler runs before GetSigners is used");
-  ("x/settlement/types/params.go|DefaultParams|call:NewDecCoins|sdk.NewDecCoins",
+  ("x/settlement/types/params.go|DefaultParams|call:NewDecCoins|NewDecCoins",
    "start-up / genesis / export path, outside block processing (genesis round trip is C17)");
   ("x/settlement/types/params.go|validateGasPrices|assert|_.(sdk.DecCoins)",
    "type fixed by the caller: parameter key table, or the transaction type checked earlier in the ante chain");
@@ -334,73 +334,73 @@ Definition clock_table : list (string * string) := [].
    node shares (C07).  A new field or variable - a cache, a memo, a counter - is not in this table and breaks the
    obligation until it is shown to be harmless. *)
 Definition state_table : list (string * string) := [
-  ("app/ante/fee.go|DeductFeeDecorator|field|accountKeeper authante.AccountKeeper",
+  ("app/ante/fee.go|DeductFeeDecorator|field|authante.AccountKeeper",
    "decorator wiring set by its constructor: keeper interfaces and the fee checker closure, no mutable value");
-  ("app/ante/fee.go|DeductFeeDecorator|field|bankKeeper authtypes.BankKeeper",
+  ("app/ante/fee.go|DeductFeeDecorator|field|authtypes.BankKeeper",
    "decorator wiring set by its constructor: keeper interfaces and the fee checker closure, no mutable value");
-  ("app/ante/fee.go|DeductFeeDecorator|field|feegrantKeeper authante.FeegrantKeeper",
+  ("app/ante/fee.go|DeductFeeDecorator|field|authante.FeegrantKeeper",
    "decorator wiring set by its constructor: keeper interfaces and the fee checker closure, no mutable value");
-  ("app/ante/fee.go|DeductFeeDecorator|field|settlementKeeper SettlementKeeper",
+  ("app/ante/fee.go|DeductFeeDecorator|field|SettlementKeeper",
    "decorator wiring set by its constructor: keeper interfaces and the fee checker closure, no mutable value");
-  ("app/ante/fee.go|DeductFeeDecorator|field|txFeeChecker authante.TxFeeChecker",
+  ("app/ante/fee.go|DeductFeeDecorator|field|authante.TxFeeChecker",
    "decorator wiring set by its constructor: keeper interfaces and the fee checker closure, no mutable value");
-  ("app/ante/fee.go|SettlusValidatorCheckDecorator|field|ork OracleKeeper",
+  ("app/ante/fee.go|SettlusValidatorCheckDecorator|field|OracleKeeper",
    "decorator wiring set by its constructor: keeper interfaces and the fee checker closure, no mutable value");
-  ("app/ante/handler_options.go|HandlerOptions|field|AccountKeeper evmtypes.AccountKeeper",
+  ("app/ante/handler_options.go|HandlerOptions|field|evmtypes.AccountKeeper",
    "wiring handed to NewAnteHandler once at application start: keepers, codec and constants, never written afterwards");
-  ("app/ante/handler_options.go|HandlerOptions|field|BankKeeper evmtypes.BankKeeper",
+  ("app/ante/handler_options.go|HandlerOptions|field|evmtypes.BankKeeper",
    "wiring handed to NewAnteHandler once at application start: keepers, codec and constants, never written afterwards");
-  ("app/ante/handler_options.go|HandlerOptions|field|Cdc codec.BinaryCodec",
+  ("app/ante/handler_options.go|HandlerOptions|field|codec.BinaryCodec",
    "wiring handed to NewAnteHandler once at application start: keepers, codec and constants, never written afterwards");
-  ("app/ante/handler_options.go|HandlerOptions|field|DistributionKeeper anteutils.DistributionKeeper",
+  ("app/ante/handler_options.go|HandlerOptions|field|anteutils.DistributionKeeper",
    "wiring handed to NewAnteHandler once at application start: keepers, codec and constants, never written afterwards");
-  ("app/ante/handler_options.go|HandlerOptions|field|EvmKeeper evmante.EVMKeeper",
+  ("app/ante/handler_options.go|HandlerOptions|field|evmante.EVMKeeper",
    "wiring handed to NewAnteHandler once at application start: keepers, codec and constants, never written afterwards");
-  ("app/ante/handler_options.go|HandlerOptions|field|ExtensionOptionChecker ante.ExtensionOptionChecker",
+  ("app/ante/handler_options.go|HandlerOptions|field|ante.ExtensionOptionChecker",
    "wiring handed to NewAnteHandler once at application start: keepers, codec and constants, never written afterwards");
-  ("app/ante/handler_options.go|HandlerOptions|field|FeeMarketKeeper evmante.FeeMarketKeeper",
+  ("app/ante/handler_options.go|HandlerOptions|field|evmante.FeeMarketKeeper",
    "wiring handed to NewAnteHandler once at application start: keepers, codec and constants, never written afterwards");
-  ("app/ante/handler_options.go|HandlerOptions|field|FeegrantKeeper ante.FeegrantKeeper",
+  ("app/ante/handler_options.go|HandlerOptions|field|ante.FeegrantKeeper",
    "wiring handed to NewAnteHandler once at application start: keepers, codec and constants, never written afterwards");
-  ("app/ante/handler_options.go|HandlerOptions|field|IBCKeeper *ibckeeper.Keeper",
+  ("app/ante/handler_options.go|HandlerOptions|field|*ibckeeper.Keeper",
    "wiring handed to NewAnteHandler once at application start: keepers, codec and constants, never written afterwards");
-  ("app/ante/handler_options.go|HandlerOptions|field|MaxTxGasWanted uint64",
+  ("app/ante/handler_options.go|HandlerOptions|field|uint64",
    "wiring handed to NewAnteHandler once at application start: keepers, codec and constants, never written afterwards");
-  ("app/ante/handler_options.go|HandlerOptions|field|OracleKeeper OracleKeeper",
+  ("app/ante/handler_options.go|HandlerOptions|field|OracleKeeper",
    "wiring handed to NewAnteHandler once at application start: keepers, codec and constants, never written afterwards");
-  ("app/ante/handler_options.go|HandlerOptions|field|SettlementKeeper SettlementKeeper",
+  ("app/ante/handler_options.go|HandlerOptions|field|SettlementKeeper",
    "wiring handed to NewAnteHandler once at application start: keepers, codec and constants, never written afterwards");
-  ("app/ante/handler_options.go|HandlerOptions|field|SigGasConsumer func(meter sdk.GasMeter, sig signing.SignatureV2, params authtypes.Params) error",
+  ("app/ante/handler_options.go|HandlerOptions|field|func(meter sdk.GasMeter, sig signing.SignatureV2, params authtypes.Params) error",
    "wiring handed to NewAnteHandler once at application start: keepers, codec and constants, never written afterwards");
-  ("app/ante/handler_options.go|HandlerOptions|field|SignModeHandler authsigning.SignModeHandler",
+  ("app/ante/handler_options.go|HandlerOptions|field|authsigning.SignModeHandler",
    "wiring handed to NewAnteHandler once at application start: keepers, codec and constants, never written afterwards");
-  ("app/ante/handler_options.go|HandlerOptions|field|StakingKeeper anteutils.StakingKeeper",
+  ("app/ante/handler_options.go|HandlerOptions|field|anteutils.StakingKeeper",
    "wiring handed to NewAnteHandler once at application start: keepers, codec and constants, never written afterwards");
-  ("app/ante/handler_options.go|HandlerOptions|field|TxFeeChecker ante.TxFeeChecker",
+  ("app/ante/handler_options.go|HandlerOptions|field|ante.TxFeeChecker",
    "wiring handed to NewAnteHandler once at application start: keepers, codec and constants, never written afterwards");
   ("app/post/settlement.go|-|var|_ sdk.PostDecorator",
    "compile-time interface assertion: holds no value");
-  ("x/oracle/keeper/keeper.go|Keeper|field|AccountKeeper types.AccountKeeper",
+  ("x/oracle/keeper/keeper.go|Keeper|field|types.AccountKeeper",
    "interface to another module keeper, set by NewKeeper: that module keeps its state in the multistore");
-  ("x/oracle/keeper/keeper.go|Keeper|field|BankKeeper types.BankKeeper",
+  ("x/oracle/keeper/keeper.go|Keeper|field|types.BankKeeper",
    "interface to another module keeper, set by NewKeeper: that module keeps its state in the multistore");
-  ("x/oracle/keeper/keeper.go|Keeper|field|DistributionKeeper types.DistributionKeeper",
+  ("x/oracle/keeper/keeper.go|Keeper|field|types.DistributionKeeper",
    "interface to another module keeper, set by NewKeeper: that module keeps its state in the multistore");
-  ("x/oracle/keeper/keeper.go|Keeper|field|SettlementKeeper types.SettlementKeeper",
+  ("x/oracle/keeper/keeper.go|Keeper|field|types.SettlementKeeper",
    "interface to another module keeper, set by NewKeeper: that module keeps its state in the multistore");
-  ("x/oracle/keeper/keeper.go|Keeper|field|StakingKeeper types.StakingKeeper",
+  ("x/oracle/keeper/keeper.go|Keeper|field|types.StakingKeeper",
    "interface to another module keeper, set by NewKeeper: that module keeps its state in the multistore");
-  ("x/oracle/keeper/keeper.go|Keeper|field|cdc codec.BinaryCodec",
+  ("x/oracle/keeper/keeper.go|Keeper|field|codec.BinaryCodec",
    "immutable handle set by NewKeeper: codec / store key / parameter subspace / module name; all state behind it lives in the multistore");
-  ("x/oracle/keeper/keeper.go|Keeper|field|distributionName string",
+  ("x/oracle/keeper/keeper.go|Keeper|field|string",
    "immutable handle set by NewKeeper: codec / store key / parameter subspace / module name; all state behind it lives in the multistore");
-  ("x/oracle/keeper/keeper.go|Keeper|field|paramstore paramtypes.Subspace",
+  ("x/oracle/keeper/keeper.go|Keeper|field|paramtypes.Subspace",
    "immutable handle set by NewKeeper: codec / store key / parameter subspace / module name; all state behind it lives in the multistore");
-  ("x/oracle/keeper/keeper.go|Keeper|field|storeKey storetypes.StoreKey",
+  ("x/oracle/keeper/keeper.go|Keeper|field|storetypes.StoreKey",
    "immutable handle set by NewKeeper: codec / store key / parameter subspace / module name; all state behind it lives in the multistore");
   ("x/oracle/keeper/msg_server.go|-|var|_ types.MsgServer",
    "compile-time interface assertion: holds no value");
-  ("x/oracle/keeper/msg_server.go|msgServer|field|(embedded) Keeper",
+  ("x/oracle/keeper/msg_server.go|msgServer|field|Keeper",
    "embeds the keeper: no state of its own");
   ("x/oracle/keeper/query.go|-|var|_ types.QueryServer",
    "compile-time interface assertion: holds no value");
@@ -414,13 +414,13 @@ Definition state_table : list (string * string) := [
    "compile-time interface assertion: holds no value");
   ("x/oracle/module.go|-|var|_ module.EndBlockAppModule",
    "compile-time interface assertion: holds no value");
-  ("x/oracle/module.go|AppModule|field|(embedded) AppModuleBasic",
+  ("x/oracle/module.go|AppModule|field|AppModuleBasic",
    "module wiring set by NewAppModule: keepers only");
-  ("x/oracle/module.go|AppModule|field|accountKeeper types.AccountKeeper",
+  ("x/oracle/module.go|AppModule|field|types.AccountKeeper",
    "module wiring set by NewAppModule: keepers only");
-  ("x/oracle/module.go|AppModule|field|bankKeeper types.BankKeeper",
+  ("x/oracle/module.go|AppModule|field|types.BankKeeper",
    "module wiring set by NewAppModule: keepers only");
-  ("x/oracle/module.go|AppModule|field|keeper keeper.Keeper",
+  ("x/oracle/module.go|AppModule|field|keeper.Keeper",
    "module wiring set by NewAppModule: keepers only");
   ("x/oracle/types/errors.go|-|var|ErrChainNotFound = errorsmod.Register(ModuleName, 1000, 'chain not found')",
    "registered error value: assigned once at package initialisation, never written afterwards");
@@ -484,63 +484,63 @@ Definition state_table : list (string * string) := [
    "store key prefix / parameter key: assigned once at package initialisation, only read (append copies: len = cap)");
   ("x/oracle/types/params.go|-|var|_ paramtypes.ParamSet",
    "compile-time interface assertion: holds no value");
-  ("x/oracle/types/vote.go|Claim|field|Abstain bool",
+  ("x/oracle/types/vote.go|Claim|field|bool",
    "plain value type built and dropped inside one end-blocker call");
-  ("x/oracle/types/vote.go|Claim|field|Miss bool",
+  ("x/oracle/types/vote.go|Claim|field|bool",
    "plain value type built and dropped inside one end-blocker call");
-  ("x/oracle/types/vote.go|Claim|field|Weight int64",
+  ("x/oracle/types/vote.go|Claim|field|int64",
    "plain value type built and dropped inside one end-blocker call");
-  ("x/oracle/voteprocessor/types.go|DataWithVoter|field|Data T",
+  ("x/oracle/voteprocessor/types.go|DataWithVoter|field|T",
    "plain value type built and dropped inside one end-blocker call");
-  ("x/oracle/voteprocessor/types.go|DataWithVoter|field|Voter sdk.ValAddress",
+  ("x/oracle/voteprocessor/types.go|DataWithVoter|field|sdk.ValAddress",
    "plain value type built and dropped inside one end-blocker call");
-  ("x/oracle/voteprocessor/types.go|DataWithWeight|field|Data T",
+  ("x/oracle/voteprocessor/types.go|DataWithWeight|field|T",
    "plain value type built and dropped inside one end-blocker call");
-  ("x/oracle/voteprocessor/types.go|DataWithWeight|field|Weight int64",
+  ("x/oracle/voteprocessor/types.go|DataWithWeight|field|int64",
    "plain value type built and dropped inside one end-blocker call");
-  ("x/oracle/voteprocessor/voteprocessor.go|VoteProcessor|field|aggregateVotes []types.AggregateVote",
+  ("x/oracle/voteprocessor/voteprocessor.go|VoteProcessor|field|[]types.AggregateVote",
    "built by NewSettlusVoteProcessors inside one end-blocker call and dropped after the tally");
-  ("x/oracle/voteprocessor/voteprocessor.go|VoteProcessor|field|dataConverter DataConverter[Source, Data]",
+  ("x/oracle/voteprocessor/voteprocessor.go|VoteProcessor|field|DataConverter[Source, Data]",
    "built by NewSettlusVoteProcessors inside one end-blocker call and dropped after the tally");
-  ("x/oracle/voteprocessor/voteprocessor.go|VoteProcessor|field|onConsensus ConsensusHook[Source, Data]",
+  ("x/oracle/voteprocessor/voteprocessor.go|VoteProcessor|field|ConsensusHook[Source, Data]",
    "built by NewSettlusVoteProcessors inside one end-blocker call and dropped after the tally");
-  ("x/oracle/voteprocessor/voteprocessor.go|VoteProcessor|field|thresholdVotes math.Int",
+  ("x/oracle/voteprocessor/voteprocessor.go|VoteProcessor|field|math.Int",
    "built by NewSettlusVoteProcessors inside one end-blocker call and dropped after the tally");
-  ("x/oracle/voteprocessor/voteprocessor.go|VoteProcessor|field|topic types.OracleTopic",
+  ("x/oracle/voteprocessor/voteprocessor.go|VoteProcessor|field|types.OracleTopic",
    "built by NewSettlusVoteProcessors inside one end-blocker call and dropped after the tally");
   ("x/settlement/keeper/grpc_query.go|-|var|_ types.QueryServer",
    "compile-time interface assertion: holds no value");
-  ("x/settlement/keeper/grpc_query.go|Querier|field|(embedded) *SettlementKeeper",
+  ("x/settlement/keeper/grpc_query.go|Querier|field|*SettlementKeeper",
    "embeds the keeper: no state of its own");
-  ("x/settlement/keeper/keeper.go|SettlementKeeper|field|ak types.AccountKeeper",
+  ("x/settlement/keeper/keeper.go|SettlementKeeper|field|types.AccountKeeper",
    "interface to another module keeper, set by NewKeeper: that module keeps its state in the multistore");
-  ("x/settlement/keeper/keeper.go|SettlementKeeper|field|bk types.BankKeeper",
+  ("x/settlement/keeper/keeper.go|SettlementKeeper|field|types.BankKeeper",
    "interface to another module keeper, set by NewKeeper: that module keeps its state in the multistore");
-  ("x/settlement/keeper/keeper.go|SettlementKeeper|field|cdc codec.BinaryCodec",
+  ("x/settlement/keeper/keeper.go|SettlementKeeper|field|codec.BinaryCodec",
    "immutable handle set by NewKeeper: codec / store key / parameter subspace / module name; all state behind it lives in the multistore");
-  ("x/settlement/keeper/keeper.go|SettlementKeeper|field|erc20k types.Erc20Keeper",
+  ("x/settlement/keeper/keeper.go|SettlementKeeper|field|types.Erc20Keeper",
    "interface to another module keeper, set by NewKeeper: that module keeps its state in the multistore");
-  ("x/settlement/keeper/keeper.go|SettlementKeeper|field|evmk types.EvmKeeper",
+  ("x/settlement/keeper/keeper.go|SettlementKeeper|field|types.EvmKeeper",
    "interface to another module keeper, set by NewKeeper: that module keeps its state in the multistore");
-  ("x/settlement/keeper/keeper.go|SettlementKeeper|field|paramstore paramtypes.Subspace",
+  ("x/settlement/keeper/keeper.go|SettlementKeeper|field|paramtypes.Subspace",
    "immutable handle set by NewKeeper: codec / store key / parameter subspace / module name; all state behind it lives in the multistore");
-  ("x/settlement/keeper/keeper.go|SettlementKeeper|field|storeKey storetypes.StoreKey",
+  ("x/settlement/keeper/keeper.go|SettlementKeeper|field|storetypes.StoreKey",
    "immutable handle set by NewKeeper: codec / store key / parameter subspace / module name; all state behind it lives in the multistore");
   ("x/settlement/keeper/msg_server.go|-|var|_ types.MsgServer",
    "compile-time interface assertion: holds no value");
-  ("x/settlement/keeper/msg_server.go|msgServer|field|(embedded) *SettlementKeeper",
+  ("x/settlement/keeper/msg_server.go|msgServer|field|*SettlementKeeper",
    "embeds the keeper: no state of its own");
   ("x/settlement/module.go|-|var|_ module.AppModule",
    "compile-time interface assertion: holds no value");
   ("x/settlement/module.go|-|var|_ module.AppModuleBasic",
    "compile-time interface assertion: holds no value");
-  ("x/settlement/module.go|AppModule|field|(embedded) AppModuleBasic",
+  ("x/settlement/module.go|AppModule|field|AppModuleBasic",
    "module wiring set by NewAppModule: keepers only");
-  ("x/settlement/module.go|AppModule|field|accountKeeper types.AccountKeeper",
+  ("x/settlement/module.go|AppModule|field|types.AccountKeeper",
    "module wiring set by NewAppModule: keepers only");
-  ("x/settlement/module.go|AppModule|field|bankKeeper types.BankKeeper",
+  ("x/settlement/module.go|AppModule|field|types.BankKeeper",
    "module wiring set by NewAppModule: keepers only");
-  ("x/settlement/module.go|AppModule|field|keeper *keeper.SettlementKeeper",
+  ("x/settlement/module.go|AppModule|field|*keeper.SettlementKeeper",
    "module wiring set by NewAppModule: keepers only");
   ("x/settlement/types/errors.go|-|var|ErrCannotRemoveAdmin = sdkerrors.Register(ModuleName, 1115, 'cannot remove admin')",
    "registered error value: assigned once at package initialisation, never written afterwards");
